@@ -48,6 +48,7 @@ fn chk(c: &mut Ctx, segs: &[(char, Vec<u8>)], attrs: &[A], subst: &[(usize, usiz
     let got: Vec<A> = out.iter().map(|a| (a.start, a.end, a.author_id.clone(), a.ts)).collect();
     let (mut op, mut np) = (0usize, 0usize);
     let mut ins_idx = 0usize;
+    let mut del_idx = 0usize;
     let new_len: usize = segs.iter().filter(|s| s.0 != 'D').map(|s| s.1.len()).sum();
     for g in &got { if g.1 > new_len || g.0 > g.1 { c.fail("region_ta_equal", "in_segment", input.clone(), format!("{:?}", g), format!("inside [0,{}]", new_len)); return; } }
     for (o, d) in segs {
@@ -71,7 +72,22 @@ fn chk(c: &mut Ctx, segs: &[(char, Vec<u8>)], attrs: &[A], subst: &[(usize, usiz
                 }
                 op += len; np += len;
             }
-            'D' => { op += len; }
+            'D' => {
+                // moved text keeps its author: every old attribution meeting a mapped source range has its image at the move target
+                let ins_starts: Vec<usize> = { let mut v = vec![]; let mut p = 0usize; for (o2, d2) in segs { if *o2 == 'I' { v.push(p); } if *o2 != 'D' { p += d2.len(); } } v };
+                for m in moves.iter().filter(|m| m.0 == del_idx) {
+                    let (p, e) = (op + m.2.0, op + m.2.1);
+                    let q = ins_starts[m.1] + m.3.0;
+                    for a in attrs {
+                        let lo = a.0.max(p); let hi = a.1.min(e);
+                        if lo < hi {
+                            let img = (q + lo - p, q + hi - p, a.2.clone(), a.3);
+                            if !got.contains(&img) { c.fail("region_ta_delete_move", "eq_complete", input.clone(), format!("{:?}", got), format!("contains {:?} (moved text keeps its author)", img)); return; }
+                        }
+                    }
+                }
+                op += len; del_idx += 1;
+            }
             _ if moves.iter().any(|m| m.1 == ins_idx) => {
                 // moved insertion: bytes not targeted by any move must be covered by the reporting author, targeted bytes must not
                 for x in 0..len {
